@@ -21,6 +21,7 @@ def Reach (s : St) : Prop := ∃ es, run St.init es = some s
 @[simp, grind =] theorem setFlavTid_flushed (s : St) (fl : Flav) (t : Nat) : (s.setFlavTid fl t).flushed = s.flushed := by cases fl <;> rfl
 @[simp, grind =] theorem setFlavTid_execs (s : St) (fl : Flav) (t : Nat) : (s.setFlavTid fl t).execs = s.execs := by cases fl <;> rfl
 @[simp, grind =] theorem setFlavTid_failedQuiet (s : St) (fl : Flav) (t : Nat) : (s.setFlavTid fl t).failedQuiet = s.failedQuiet := by cases fl <;> rfl
+@[simp, grind =] theorem setFlavTid_holder (s : St) (fl : Flav) (t : Nat) : (s.setFlavTid fl t).holder = s.holder := by cases fl <;> rfl
 @[simp, grind =] theorem setFlavTid_pids (s : St) (fl : Flav) (t : Nat) : (s.setFlavTid fl t).pids = s.pids := by cases fl <;> rfl
 
 @[simp] theorem upd'_apply {α} (f : Flav → α) (k : Flav) (v : α) (q : Flav) :
